@@ -518,7 +518,7 @@ def main():
         run.violation("table translator failed closed: " + "; ".join(errors), dict(kind="translator", errors=errors), False)
         return run.finish()
     if changed: run.log("tables regenerated:", changed)
-    ok, log = run.build(["Proofs/C10/Time.vo", "Proofs/C10/Lines.vo", "Proofs/C10/Text.vo", "Proofs/C10/Roundtrip.vo", "Proofs/C10/Font.vo", "Proofs/C10/Tags.vo", "Proofs/C10/Witness.vo",
+    ok, log = run.build(["Proofs/C10/Time.vo", "Proofs/C10/Lines.vo", "Proofs/C10/Text.vo", "Proofs/C10/Roundtrip.vo", "Proofs/C10/NoFinalEol.vo", "Proofs/C10/Font.vo", "Proofs/C10/Tags.vo", "Proofs/C10/Witness.vo",
                          "Model/SrtReaderCases.vo"], clean=(run.tier == "thorough"))
     proofs_ok = ok and run.theorems()
     if not ok: run.proof_log = log[-2500:]
@@ -676,6 +676,8 @@ def main():
     sample = None
     for c in gcases:
         if c[4][0] == "ok" and 1 <= len(c[1]["cues"]) <= 2 and len(c[3]) < 200: sample = dict(text=c[3], cues=flat(c[4])); break
+    if sample is None and gcases: sample = dict(text=gcases[0][3][:400], implementation=str(gcases[0][4])[:400])
+    if sample is None and tcases: sample = dict(text=tcases[0][2][:400], implementation=str(tcases[0][3])[:400])
     run.cov.update(evaluations=total * 2 + len(gcases) * 3, distinct_nontrivial=nontrivial,
                    rule="evaluations = texts fed to ttconv.srt.reader.to_model, each compared in Coq with M (tree + exact times) and, for grammar / "
                         "writer files, judged by S (cues f) and cross-checked (print_file f = text, wf_file f, M vs S). Inputs: files printed from random "
